@@ -494,7 +494,18 @@ func c03One(l *Lab, rep *Report, idp *IdP, c c03Cfg) {
 				rep.Violate("C03/dialed-other-than-requested"+key, fmt.Sprintf("requested %q, dial events %v", requested, dials), detail)
 			}
 			rh, rp, _ := net.SplitHostPort(requested)
-			if !isLab && total > 0 && acc[net.JoinHostPort(rh, rp)] != total && (net.ParseIP(rh) != nil || strings.HasSuffix(rh, ".example")) {
+			sameEndpoint := acc[net.JoinHostPort(rh, rp)] == total
+			if rip := net.ParseIP(rh); rip != nil && !sameEndpoint {
+				// the same address in another spelling, or the unspecified address (dials the local host)
+				sameEndpoint = true
+				for ad := range acc {
+					ah, ap, _ := net.SplitHostPort(ad)
+					if ap != rp || !(rip.IsUnspecified() || rip.Equal(net.ParseIP(ah))) {
+						sameEndpoint = false
+					}
+				}
+			}
+			if !isLab && total > 0 && !sameEndpoint && (net.ParseIP(rh) != nil || strings.HasSuffix(rh, ".example")) {
 				rep.Violate("C03/accept-on-wrong-listener"+key, fmt.Sprintf("requested %q (no lab listener has that address) was answered with success and the connection landed on %v", requested, acc), detail)
 			}
 			if isLab && (total != 1 || acc[requested] != 1) {
